@@ -156,9 +156,7 @@ fn main() {
     let mut failures = distinct_failures(&report.result.failures);
     let mut builds = vec![json!({"build": ctx.build, "evaluations": report.result.stats.evaluations, "distinct_nontrivial": report.result.stats.distinct_nontrivial()})];
     for (build, var) in [("checked-pext", "VCHECK_BIN_PEXT"), ("unchecked", "VCHECK_BIN_UNCHECKED")] {
-        if !props::builds_for(id, tier).contains(&build) {
-            continue;
-        }
+        let Some((_, sub_tier)) = props::sub_runs(id, tier).into_iter().find(|(b, _)| *b == build) else { continue };
         let Ok(bin) = std::env::var(var) else {
             health_errors.push(format!("build {} required for {} but {} is not set", build, id, var));
             continue;
@@ -166,7 +164,7 @@ fn main() {
         let out = verif_root().join("work").join(format!("sub-{}-{}-{}.json", id, tier.name(), build));
         let _ = std::fs::create_dir_all(out.parent().unwrap());
         let _ = std::fs::remove_file(&out);
-        let status = Command::new(&bin).args([id, tier.name(), "--sub", out.to_str().unwrap()]).env("VERIF_SEED", seed.to_string()).status();
+        let status = Command::new(&bin).args([id, sub_tier.name(), "--sub", out.to_str().unwrap()]).env("VERIF_SEED", seed.to_string()).status();
         match status {
             Ok(s) if s.success() => {}
             other => {
@@ -180,7 +178,7 @@ fn main() {
         };
         let v: Value = serde_json::from_str(&text).unwrap_or(Value::Null);
         let cov = &v["evidence"]["coverage"];
-        builds.push(json!({"build": build, "evaluations": cov["evaluations"], "distinct_nontrivial": cov["distinct_nontrivial"], "classes": cov["classes"], "counters": cov["counters"], "wall_s": v["evidence"]["wall_s"]}));
+        builds.push(json!({"build": build, "tier": sub_tier.name(), "evaluations": cov["evaluations"], "distinct_nontrivial": cov["distinct_nontrivial"], "classes": cov["classes"], "counters": cov["counters"], "wall_s": v["evidence"]["wall_s"]}));
         report.result.stats.evaluations += cov["evaluations"].as_u64().unwrap_or(0);
         if let Some(arr) = v["failures"].as_array() {
             for f in arr {
